@@ -351,7 +351,7 @@ func (g *gen) planCall(m *mspec, clean bool) *paramPlan {
 	}
 	// parameter-level damage
 	switch d := g.pick(9); {
-	case d == 0 && len(pl.vals) > 0: // drop a required parameter
+	case d == 0 && len(pl.vals) > 0 && req > 0: // drop a required parameter
 		if pl.form == 0 {
 			pl.vals = pl.vals[:g.pick(min(req, len(pl.vals)))]
 			pl.names = pl.names[:len(pl.vals)]
@@ -528,6 +528,9 @@ func (g *gen) request(clean bool) string {
 		if g.p(2) && len(mem) > 0 {
 			g.feat("envelope:case-variant-key")
 			j := g.pick(len(mem))
+			for mem[j].k == "" {
+				j = (j + 1) % len(mem)
+			}
 			if g.p(50) {
 				mem[j].k = strings.ToUpper(mem[j].k)
 			} else {
@@ -611,7 +614,7 @@ func (g *gen) leadingWS() string {
 		return strings.Repeat(pickS(g, []string{" ", "\n", " \t"}), 100+g.pick(120))
 	default:
 		g.feat("leading:non-json-space")
-		return pickS(g, []string{"﻿", "\v", "\f", " ", "\x00", "//c\n"})
+		return pickS(g, []string{"\ufeff", "\v", "\f", "\u00a0", "\x00", "//c\n"})
 	}
 }
 
@@ -718,7 +721,7 @@ func (g *gen) arbitrary() string {
 	case 10: // object-ish but broken
 		return pickS(g, []string{"{", "{]", "{}", `{"jsonrpc"}`, `{"jsonrpc":}`, `{"jsonrpc":"2.0",}`, `{,}`, `{"a":1}}`, `{"jsonrpc":"2.0","method":"ping","id":1`, `{"jsonrpc":"2.0" "method":"ping"}`, `{'jsonrpc':'2.0'}`, `{jsonrpc:"2.0"}`})
 	default:
-		return pickS(g, []string{"﻿{}", "\x00", "\xff\xfe", "<xml/>", "GET / HTTP/1.1\r\n\r\n", "--", "// c", "NaN", "Infinity", "0x10", "01", "+1", ".5", "1.", `"\x"`, `"\ud800"`})
+		return pickS(g, []string{"\ufeff{}", "\x00", "\xff\xfe", "<xml/>", "GET / HTTP/1.1\r\n\r\n", "--", "// c", "NaN", "Infinity", "0x10", "01", "+1", ".5", "1.", `"\x"`, `"\ud800"`})
 	}
 }
 
